@@ -1037,6 +1037,22 @@ impl<'a> Iterator for SelectorIter<'a> {
                                 return None;
                             } else {
                                 let result = self.get_internal_ranged_item(self.selector);
+                                if self.recurse_annotation {
+                                    //a range is only a compressed list of AnnotationSelectors, each of them is followed just like an uncompressed one
+                                    let handle = AnnotationHandle::new(begin.as_usize() + self.cursor_in_range);
+                                    let annotation: &Annotation = self
+                                        .store
+                                        .get(handle)
+                                        .expect("referenced annotation must exist");
+                                    self.subiterstack.push(SelectorIter {
+                                        selector: annotation.target(),
+                                        subiterstack: Vec::new(),
+                                        cursor_in_range: 0,
+                                        recurse_annotation: self.recurse_annotation,
+                                        store: self.store,
+                                        done: false,
+                                    });
+                                }
                                 self.cursor_in_range += 1;
                                 return Some(result);
                             }
@@ -1068,11 +1084,9 @@ impl<'a> Iterator for SelectorIter<'a> {
                 let result = self.subiterstack.last_mut().unwrap().next();
                 if result.is_none() {
                     self.subiterstack.pop();
-                    if self.subiterstack.is_empty() {
-                        return None;
-                    } else {
-                        continue; //recursion
-                    }
+                    //back to the top: either there is more on the stack, or this selector is done (returns None),
+                    //or it is a range that has more items to yield
+                    continue;
                 } else {
                     return result;
                 }
